@@ -1,0 +1,70 @@
+//go:build verif
+
+package pongo2
+
+import "sort"
+
+// Hooks for the verification harness under /verif. Compiled only with -tags verif;
+// they add read-only views of unexported state and change no behaviour.
+
+// VerifLex runs the lexer on input and returns its token list.
+func VerifLex(name string, input string) ([]*Token, *Error) {
+	return lex(name, input)
+}
+
+// VerifRegisteredTags returns the names of all registered tags, sorted.
+func VerifRegisteredTags() []string {
+	out := make([]string, 0, len(tags))
+	for n := range tags {
+		out = append(out, n)
+	}
+	sort.Strings(out)
+	return out
+}
+
+// VerifRegisteredFilters returns the names of all registered filters, sorted.
+func VerifRegisteredFilters() []string {
+	out := make([]string, 0, len(filters))
+	for n := range filters {
+		out = append(out, n)
+	}
+	sort.Strings(out)
+	return out
+}
+
+// VerifTokens returns a copy of the token list of a compiled template.
+func VerifTokens(tpl *Template) []Token {
+	out := make([]Token, 0, len(tpl.tokens))
+	for _, t := range tpl.tokens {
+		out = append(out, *t)
+	}
+	return out
+}
+
+// VerifSetStateView is a snapshot of the sandbox and cache state of a set.
+type VerifSetStateView struct {
+	FirstTemplateCreated bool
+	BannedTags           []string
+	BannedFilters        []string
+	CacheKeys            []string
+}
+
+// VerifSetState returns a snapshot of the set's sandbox and cache state.
+func VerifSetState(set *TemplateSet) VerifSetStateView {
+	v := VerifSetStateView{FirstTemplateCreated: set.firstTemplateCreated}
+	for n := range set.bannedTags {
+		v.BannedTags = append(v.BannedTags, n)
+	}
+	for n := range set.bannedFilters {
+		v.BannedFilters = append(v.BannedFilters, n)
+	}
+	set.templateCacheMutex.Lock()
+	for n := range set.templateCache {
+		v.CacheKeys = append(v.CacheKeys, n)
+	}
+	set.templateCacheMutex.Unlock()
+	sort.Strings(v.BannedTags)
+	sort.Strings(v.BannedFilters)
+	sort.Strings(v.CacheKeys)
+	return v
+}
